@@ -634,4 +634,481 @@ theorem rbnd_bisim (env : Env) : StreamBisim env RBnd where
     intro b1 b2 h _
     exact h.2.2.isEmpty
 
+
+/-! ### an instance on the real, lexer-backed stream: line numbers and file names are opaque
+
+    Two stream states over the same remaining text whose lexer line counters, line offsets
+    and file names differ (a different `filename` argument, a different starting line, text
+    reached after different `#line` directives) cannot be told apart by any operation. -/
+
+def StRel (s1 s2 : LexState) : Prop := s1.rest = s2.rest
+def RawEq (r1 r2 : RawTok) : Prop := r1.type = r2.type ∧ r1.value = r2.value
+
+def ActRel (a1 a2 : ActOut) : Prop :=
+  match a1, a2 with
+  | .tok t1 s1, .tok t2 s2 => RawEq t1 t2 ∧ StRel s1 s2
+  | .none s1, .none s2 => StRel s1 s2
+  | .err _, .err _ => True
+  | .opaque, .opaque => True
+  | _, _ => False
+
+theorem runAction_rel (kw : List String) (r : Rule) (v : Str) (st1 st2 : LexState) (rest : Str) :
+    ActRel (runAction kw r v st1 rest) (runAction kw r v st2 rest) := by
+  unfold runAction
+  cases r.action with
+  | ret => exact ⟨⟨rfl, rfl⟩, rfl⟩
+  | skip => exact (rfl : StRel _ _)
+  | countNl => exact ⟨⟨rfl, rfl⟩, rfl⟩
+  | lenNl => exact ⟨⟨rfl, rfl⟩, rfl⟩
+  | keyword =>
+    simp only
+    split
+    · exact ⟨⟨rfl, rfl⟩, rfl⟩
+    · exact ⟨⟨rfl, rfl⟩, rfl⟩
+  | ppDirective =>
+    simp only
+    split
+    · exact (rfl : StRel _ _)
+    · split
+      · exact (rfl : StRel _ _)
+      · split
+        · simp [mkErr, ActRel]
+        · simp [mkErr, ActRel]
+  | error msg => simp [mkErr, ActRel]
+  | errorFmt pre => simp [mkErr, ActRel]
+  | «opaque» => simp [ActRel]
+
+def OutRel (o1 o2 : TokOut) : Prop :=
+  match o1, o2 with
+  | .tok t1 s1, .tok t2 s2 => RawEq t1 t2 ∧ StRel s1 s2
+  | .eof s1, .eof s2 => StRel s1 s2
+  | .err _ _, .err _ _ => True
+  | .opaque, .opaque => True
+  | _, _ => False
+
+theorem plyToken_rel (cfg : LexCfg) : ∀ (fuel : Nat) (st1 st2 : LexState), StRel st1 st2 →
+    OutRel (plyToken cfg fuel st1) (plyToken cfg fuel st2) := by
+  intro fuel
+  induction fuel with
+  | zero => intro st1 st2 h; exact h
+  | succ n ih =>
+    intro st1 st2 h
+    unfold StRel at h
+    simp only [plyToken, ← h]
+    cases hr : st1.rest with
+    | nil => simp only [OutRel]; exact h
+    | cons c t =>
+      simp only
+      split
+      · exact ih _ _ rfl
+      · cases hf : firstRule cfg.rules (c :: t) with
+        | none =>
+          simp only
+          split
+          · exact ⟨⟨rfl, rfl⟩, rfl⟩
+          · simp [OutRel]
+        | some x =>
+          obtain ⟨r, rest⟩ := x
+          simp only
+          have ha := runAction_rel cfg.keywords r ((c :: t).take ((c :: t).length - rest.length)) st1 st2 rest
+          generalize runAction cfg.keywords r ((c :: t).take ((c :: t).length - rest.length)) st1 rest = a1 at ha ⊢
+          generalize runAction cfg.keywords r ((c :: t).take ((c :: t).length - rest.length)) st2 rest = a2 at ha ⊢
+          cases a1 with
+          | tok t1 s1 => cases a2 <;> simp [ActRel] at ha; exact ha
+          | none s1 =>
+            cases a2 <;> simp [ActRel] at ha
+            rename_i s2
+            unfold StRel at ha
+            simp only [← ha]
+            split
+            · exact ih _ _ ha
+            · simp [OutRel]
+          | err e1 => cases a2 <;> simp [ActRel] at ha; simp [OutRel]
+          | «opaque» => cases a2 <;> simp [ActRel] at ha; simp [OutRel]
+
+theorem plyTokenF_rel (cfg : LexCfg) (st1 st2 : LexState) (h : StRel st1 st2) :
+    OutRel (plyTokenF cfg st1) (plyTokenF cfg st2) := by
+  unfold plyTokenF
+  have : st1.rest.length = st2.rest.length := by rw [h]
+  rw [this]
+  exact plyToken_rel cfg _ _ _ h
+
+theorem TokEqL.length {l1 l2 : List Tok} (h : TokEqL l1 l2) : l1.length = l2.length := by
+  induction h with
+  | nil => rfl
+  | cons _ _ ih => simp [ih]
+
+theorem TokEqL.reverse {l1 l2 : List Tok} (h : TokEqL l1 l2) : TokEqL l1.reverse l2.reverse := by
+  induction h with
+  | nil => exact .nil
+  | cons ht _ ih => simp only [List.reverse_cons]; exact TokEqL.append ih (.cons ht .nil)
+
+theorem TokEqL.dropLast {l1 l2 : List Tok} (h : TokEqL l1 l2) : TokEqL l1.dropLast l2.dropLast := by
+  induction h with
+  | nil => exact .nil
+  | cons ht hl ih =>
+    cases hl with
+    | nil => exact .nil
+    | cons ht2 hl2 => simp only [List.dropLast_cons₂]; exact .cons ht ih
+
+def SpliceRel (r1 r2 : Option (List Tok)) : Prop :=
+  match r1, r2 with
+  | none, none => True
+  | some l1, some l2 => TokEqL l1 l2
+  | _, _ => False
+
+theorem splice_rel {l1 l2 : List Tok} (h : TokEqL l1 l2) : SpliceRel (spliceContinuation l1) (spliceContinuation l2) := by
+  unfold spliceContinuation
+  rw [← h.length]
+  split
+  · have hr := h.reverse
+    generalize l1.reverse = r1 at hr ⊢
+    generalize l2.reverse = r2 at hr ⊢
+    cases hr with
+    | nil => simp [SpliceRel]
+    | cons ht hl =>
+      cases hl with
+      | nil => simp [SpliceRel]
+      | cons ht2 hl2 =>
+        simp only [← ht2.1]
+        split
+        · exact hl2.reverse
+        · simp [SpliceRel]
+  · simp [SpliceRel]
+
+def FillLoopRel (r1 r2 : Except LexErr (List Tok × LexState)) : Prop :=
+  match r1, r2 with
+  | .error _, .error _ => True
+  | .ok (l1, s1), .ok (l2, s2) => TokEqL l1 l2 ∧ StRel s1 s2
+  | _, _ => False
+
+theorem ofRaw_eq {r1 r2 : RawTok} (h : RawEq r1 r2) (l1 l2 : Location) : TokEq (Tok.ofRaw r1 l1) (Tok.ofRaw r2 l2) := by
+  simp [Tok.ofRaw, TokEq, h.1, h.2]
+
+theorem fused_eq {r1 r2 : RawTok} (h : RawEq r1 r2) (l1 l2 : Location) {v1 v2 : Str} (hv : v1 = v2) :
+    TokEq { Tok.ofRaw r1 l1 with value := (Tok.ofRaw r1 l1).value ++ strOfStr v1, type := "UD_" ++ (Tok.ofRaw r1 l1).type }
+      { Tok.ofRaw r2 l2 with value := (Tok.ofRaw r2 l2).value ++ strOfStr v2, type := "UD_" ++ (Tok.ofRaw r2 l2).type } := by
+  simp [Tok.ofRaw, TokEq, h.1, h.2, hv]
+
+theorem fillLoop_rel (cfg : LexCfg) : ∀ (fuel : Nat) (line1 line2 : List Tok) (raw1 raw2 : RawTok) (st1 st2 : LexState),
+    TokEqL line1 line2 → RawEq raw1 raw2 → StRel st1 st2 →
+    FillLoopRel (fillLoop cfg fuel line1 raw1 st1) (fillLoop cfg fuel line2 raw2 st2) := by
+  intro fuel
+  induction fuel with
+  | zero => intro l1 l2 r1 r2 s1 s2 hl _ hs; exact ⟨hl, hs⟩
+  | succ n ih =>
+    intro l1 l2 r1 r2 s1 s2 hl hr hs
+    simp only [fillLoop]
+    have hline : TokEqL (l1 ++ [Tok.ofRaw r1 s1.location]) (l2 ++ [Tok.ofRaw r2 s2.location]) :=
+      TokEqL.append hl (.cons (ofRaw_eq hr _ _) .nil)
+    simp only [← hr.1]
+    have hsp : SpliceRel
+        (if r1.type = "NEWLINE" then spliceContinuation (l1 ++ [Tok.ofRaw r1 s1.location]) else some (l1 ++ [Tok.ofRaw r1 s1.location]))
+        (if r1.type = "NEWLINE" then spliceContinuation (l2 ++ [Tok.ofRaw r2 s2.location]) else some (l2 ++ [Tok.ofRaw r2 s2.location])) := by
+      split
+      · exact splice_rel hline
+      · exact hline
+    generalize (if r1.type = "NEWLINE" then spliceContinuation (l1 ++ [Tok.ofRaw r1 s1.location]) else some (l1 ++ [Tok.ofRaw r1 s1.location])) = o1 at hsp ⊢
+    generalize (if r1.type = "NEWLINE" then spliceContinuation (l2 ++ [Tok.ofRaw r2 s2.location]) else some (l2 ++ [Tok.ofRaw r2 s2.location])) = o2 at hsp ⊢
+    cases o1 with
+    | none =>
+      cases o2 with
+      | some x => simp [SpliceRel] at hsp
+      | none => exact ⟨hline, hs⟩
+    | some ln1 =>
+      cases o2 with
+      | none => simp [SpliceRel] at hsp
+      | some ln2 =>
+        simp only [SpliceRel] at hsp
+        simp only
+        have hp := plyTokenF_rel cfg s1 s2 hs
+        generalize plyTokenF cfg s1 = p1 at hp ⊢
+        generalize plyTokenF cfg s2 = p2 at hp ⊢
+        by_cases hu : isUdlStart r1.type = true
+        · simp only [hu, ↓reduceIte]
+          cases p1 with
+          | eof a1 => cases p2 <;> simp [OutRel] at hp; exact ⟨hsp, hp⟩
+          | err e1 a1 => cases p2 <;> simp [OutRel] at hp; simp [FillLoopRel]
+          | «opaque» => cases p2 <;> simp [OutRel] at hp; exact ⟨hsp, hs⟩
+          | tok t1 a1 =>
+            cases p2 <;> simp [OutRel] at hp
+            rename_i t2 a2
+            obtain ⟨ht, ha⟩ := hp
+            simp only [← ht.1, ← ht.2]
+            split
+            · exact ih _ _ _ _ _ _ hsp ht ha
+            · have hfl : TokEqL (ln1.dropLast ++ [{ Tok.ofRaw r1 s1.location with value := (Tok.ofRaw r1 s1.location).value ++ strOfStr t1.value, type := "UD_" ++ (Tok.ofRaw r1 s1.location).type }])
+                  (ln2.dropLast ++ [{ Tok.ofRaw r2 s2.location with value := (Tok.ofRaw r2 s2.location).value ++ strOfStr t1.value, type := "UD_" ++ (Tok.ofRaw r2 s2.location).type }]) :=
+                TokEqL.append hsp.dropLast (.cons (fused_eq hr _ _ rfl) .nil)
+              have hq := plyTokenF_rel cfg a1 a2 ha
+              generalize plyTokenF cfg a1 = q1 at hq ⊢
+              generalize plyTokenF cfg a2 = q2 at hq ⊢
+              cases q1 with
+              | eof c1 => cases q2 <;> simp [OutRel] at hq; exact ⟨hfl, hq⟩
+              | err e1 c1 => cases q2 <;> simp [OutRel] at hq; simp [FillLoopRel]
+              | «opaque» => cases q2 <;> simp [OutRel] at hq; exact ⟨hfl, ha⟩
+              | tok u1 c1 =>
+                cases q2 <;> simp [OutRel] at hq
+                exact ih _ _ _ _ _ _ hfl hq.1 hq.2
+        · simp only [hu, Bool.false_eq_true, ↓reduceIte]
+          cases p1 with
+          | eof a1 => cases p2 <;> simp [OutRel] at hp; exact ⟨hsp, hp⟩
+          | err e1 a1 => cases p2 <;> simp [OutRel] at hp; simp [FillLoopRel]
+          | «opaque» => cases p2 <;> simp [OutRel] at hp; exact ⟨hsp, hs⟩
+          | tok t1 a1 =>
+            cases p2 <;> simp [OutRel] at hp
+            exact ih _ _ _ _ _ _ hsp hp.1 hp.2
+
+
+/-- same tokens buffered, same remaining text, same kind of stream; line counters and file
+    names are free -/
+def RLoc (b1 b2 : Buf) : Prop :=
+  b1.bounded = b2.bounded ∧ TokEqL b1.tokbuf b2.tokbuf ∧ StRel b1.lex b2.lex
+
+def FillRel (r1 r2 : Except Err (Bool × Buf)) : Prop :=
+  match r1, r2 with
+  | .error e1, .error e2 => ErrRel e1 e2
+  | .ok (x1, b1), .ok (x2, b2) => x1 = x2 ∧ RLoc b1 b2
+  | _, _ => False
+
+theorem fill_rel (cfg : LexCfg) (b1 b2 : Buf) (h : RLoc b1 b2) : FillRel (fill cfg b1) (fill cfg b2) := by
+  obtain ⟨hb, hl, hs⟩ := h
+  unfold fill
+  rw [← hb]
+  split
+  · exact ErrRel.refl _
+  · have hp := plyTokenF_rel cfg b1.lex b2.lex hs
+    generalize plyTokenF cfg b1.lex = p1 at hp ⊢
+    generalize plyTokenF cfg b2.lex = p2 at hp ⊢
+    cases p1 with
+    | eof a1 => cases p2 <;> simp [OutRel] at hp; exact ⟨rfl, rfl, hl, hp⟩
+    | err e1 a1 => cases p2 <;> simp [OutRel] at hp; exact .inr ⟨_, _, rfl, rfl⟩
+    | «opaque» => cases p2 <;> simp [OutRel] at hp; exact ErrRel.refl _
+    | tok t1 a1 =>
+      cases p2 <;> simp [OutRel] at hp
+      rename_i t2 a2
+      simp only
+      have hlen : a1.rest.length = a2.rest.length := by rw [hp.2]
+      rw [hlen]
+      have hf := fillLoop_rel cfg (a2.rest.length + 2) [] [] t1 t2 a1 a2 .nil hp.1 hp.2
+      generalize fillLoop cfg (a2.rest.length + 2) [] t1 a1 = f1 at hf ⊢
+      generalize fillLoop cfg (a2.rest.length + 2) [] t2 a2 = f2 at hf ⊢
+      cases f1 with
+      | error e1 => cases f2 <;> simp [FillLoopRel] at hf; exact .inr ⟨_, _, rfl, rfl⟩
+      | ok x1 =>
+        cases f2 with
+        | error e2 => obtain ⟨l1, s1⟩ := x1; simp [FillLoopRel] at hf
+        | ok x2 =>
+          obtain ⟨l1, s1⟩ := x1
+          obtain ⟨l2, s2⟩ := x2
+          simp only [FillLoopRel] at hf
+          exact ⟨rfl, rfl, TokEqL.append hl hf.1, hf.2⟩
+
+theorem nextTok_rloc (cfg : LexCfg) (disc : String → Bool) : ∀ (n : Nat) (b1 b2 : Buf), RLoc b1 b2 →
+    NextRel RLoc (nextTok cfg disc n b1) (nextTok cfg disc n b2) := by
+  intro n
+  induction n with
+  | zero => intro b1 b2 _; exact ErrRel.refl _
+  | succ n ih =>
+    intro b1 b2 h
+    obtain ⟨hb, hl, hs⟩ := h
+    have hp := popSignificant_eqL disc hl
+    simp only [nextTok]
+    cases h1 : popSignificant disc b1.tokbuf with
+    | some x1 =>
+      cases h2 : popSignificant disc b2.tokbuf with
+      | none => simp [h1, h2, PopRel] at hp
+      | some x2 =>
+        obtain ⟨t1, r1⟩ := x1
+        obtain ⟨t2, r2⟩ := x2
+        simp only [h1, h2, PopRel] at hp
+        exact ⟨hp.1, hb, hp.2, hs⟩
+    | none =>
+      cases h2 : popSignificant disc b2.tokbuf with
+      | some x => simp [h1, h2, PopRel] at hp
+      | none =>
+        simp only
+        have hf := fill_rel cfg { b1 with tokbuf := [] } { b2 with tokbuf := [] } ⟨hb, .nil, hs⟩
+        generalize fill cfg { b1 with tokbuf := [] } = f1 at hf ⊢
+        generalize fill cfg { b2 with tokbuf := [] } = f2 at hf ⊢
+        cases f1 with
+        | error e1 => cases f2 <;> simp [FillRel] at hf; exact hf
+        | ok x1 =>
+          cases f2 with
+          | error e2 => obtain ⟨y1, c1⟩ := x1; simp [FillRel] at hf
+          | ok x2 =>
+            obtain ⟨y1, c1⟩ := x1
+            obtain ⟨y2, c2⟩ := x2
+            simp only [FillRel] at hf
+            obtain ⟨hy, hc⟩ := hf
+            subst hy
+            cases y1 with
+            | false => exact hc
+            | true => exact ih _ _ hc
+
+theorem doxScan_rel : ∀ {l1 l2 : List Tok} {c1 c2 : List Tok}, TokEqL l1 l2 → TokEqL c1 c2 →
+    TokEqL (doxScan c1 l1).1 (doxScan c2 l2).1 ∧ TokEqL (doxScan c1 l1).2.1 (doxScan c2 l2).2.1 ∧
+      (doxScan c1 l1).2.2 = (doxScan c2 l2).2.2 := by
+  intro l1 l2 c1 c2 hl
+  induction hl generalizing c1 c2 with
+  | nil => intro hc; exact ⟨hc, .nil, rfl⟩
+  | cons ht hl ih =>
+    intro hc
+    simp only [doxScan, ← ht.1]
+    split
+    · exact ih .nil
+    · split
+      · exact ih hc
+      · split
+        · exact ih (TokEqL.append hc (.cons ht .nil))
+        · exact ⟨hc, .cons ht hl, rfl⟩
+
+theorem docLines_eq (mcRe : Re) {c1 c2 : List Tok} (h : TokEqL c1 c2) :
+    c1.flatMap (docLinesOf mcRe) = c2.flatMap (docLinesOf mcRe) := by
+  induction h with
+  | nil => rfl
+  | cons ht _ ih =>
+    simp only [List.flatMap_cons, ih]
+    congr 1
+    simp only [docLinesOf, ht.1, ht.2.1]
+
+theorem extractComments_eq (mcRe : Re) {c1 c2 : List Tok} (h : TokEqL c1 c2) :
+    extractComments mcRe c1 = extractComments mcRe c2 := by
+  simp only [extractComments, docLines_eq mcRe h]
+
+theorem doxResult_eq (mcRe : Re) {c1 c2 : List Tok} (h : TokEqL c1 c2) :
+    (if c1.isEmpty then none else extractComments mcRe c1) = (if c2.isEmpty then none else extractComments mcRe c2) := by
+  rw [h.isEmpty, extractComments_eq mcRe h]
+
+theorem getDoxygenLoop_rel (cfg : LexCfg) (mcRe : Re) : ∀ (n : Nat) (c1 c2 : List Tok) (b1 b2 : Buf),
+    TokEqL c1 c2 → RLoc b1 b2 →
+    DoxRel RLoc (getDoxygenLoop cfg mcRe n c1 b1) (getDoxygenLoop cfg mcRe n c2 b2) := by
+  intro n
+  induction n with
+  | zero => intro c1 c2 b1 b2 _ _; exact ErrRel.refl _
+  | succ n ih =>
+    intro c1 c2 b1 b2 hc h
+    obtain ⟨hb, hl, hs⟩ := h
+    obtain ⟨hcs, hrest, hstop⟩ := doxScan_rel hl hc
+    simp only [getDoxygenLoop, ← hstop]
+    split
+    · exact ⟨doxResult_eq mcRe hcs, hb, hrest, hs⟩
+    · have hf := fill_rel cfg { b1 with tokbuf := (doxScan c1 b1.tokbuf).2.1 } { b2 with tokbuf := (doxScan c2 b2.tokbuf).2.1 } ⟨hb, hrest, hs⟩
+      generalize fill cfg { b1 with tokbuf := (doxScan c1 b1.tokbuf).2.1 } = f1 at hf ⊢
+      generalize fill cfg { b2 with tokbuf := (doxScan c2 b2.tokbuf).2.1 } = f2 at hf ⊢
+      cases f1 with
+      | error e1 => cases f2 <;> simp [FillRel] at hf; exact hf
+      | ok x1 =>
+        cases f2 with
+        | error e2 => obtain ⟨y1, d1⟩ := x1; simp [FillRel] at hf
+        | ok x2 =>
+          obtain ⟨y1, d1⟩ := x1
+          obtain ⟨y2, d2⟩ := x2
+          simp only [FillRel] at hf
+          obtain ⟨hy, hd⟩ := hf
+          subst hy
+          cases y1 with
+          | false => exact ⟨doxResult_eq mcRe hcs, hd⟩
+          | true => exact ih _ _ _ _ hcs hd
+
+theorem doxAfterScan_rel : ∀ {l1 l2 c1 c2 n1 n2 : List Tok}, TokEqL l1 l2 → TokEqL c1 c2 → TokEqL n1 n2 →
+    TokEqL (doxAfterScan c1 n1 l1).1 (doxAfterScan c2 n2 l2).1 ∧
+    TokEqL (doxAfterScan c1 n1 l1).2.1 (doxAfterScan c2 n2 l2).2.1 ∧
+    TokEqL (doxAfterScan c1 n1 l1).2.2 (doxAfterScan c2 n2 l2).2.2 := by
+  intro l1 l2 c1 c2 n1 n2 hl
+  induction hl generalizing c1 c2 n1 n2 with
+  | nil => intro hc hn; exact ⟨hc, hn, .nil⟩
+  | cons ht hl ih =>
+    intro hc hn
+    simp only [doxAfterScan, ← ht.1]
+    split
+    · exact ⟨hc, hn, hl⟩
+    · split
+      · exact ih hc (TokEqL.append hn (.cons ht .nil))
+      · split
+        · exact ih (TokEqL.append hc (.cons ht .nil)) hn
+        · rw [← hc.isEmpty]
+          split
+          · exact ⟨hc, TokEqL.append hn (.cons ht .nil), hl⟩
+          · exact ih hc (TokEqL.append hn (.cons ht .nil))
+
+theorem rloc_bisim (env : Env) : StreamBisim env RLoc where
+  next := by
+    intro nl b1 b2 h
+    unfold nextOp tokenNewlineEofOk tokenEofOk fuelFor
+    have : b1.lex.rest.length = b2.lex.rest.length := by rw [h.2.2]
+    rw [this]
+    split
+    · exact nextTok_rloc _ _ _ _ _ h
+    · exact nextTok_rloc _ _ _ _ _ h
+  unread := by
+    intro ts1 ts2 b1 b2 h hts
+    exact ⟨h.1, TokEqL.append hts h.2.1, h.2.2⟩
+  curLoc := by
+    intro b1 b2 h
+    obtain ⟨hb, hl, hs⟩ := h
+    unfold currentLocation
+    cases h1 : b1.tokbuf with
+    | nil =>
+      cases h2 : b2.tokbuf with
+      | nil =>
+        simp only [← hb]
+        split
+        · exact ErrRel.refl _
+        · simp [LocRel]
+      | cons t2 r2 => rw [h1, h2] at hl; cases hl
+    | cons t1 r1 =>
+      cases h2 : b2.tokbuf with
+      | nil => rw [h1, h2] at hl; cases hl
+      | cons t2 r2 => simp only [LocRel]
+  dox := by
+    intro b1 b2 h
+    unfold getDoxygen
+    rw [← h.1, ← h.2.1.isEmpty]
+    split
+    · exact ⟨rfl, h⟩
+    · split
+      · have hf := fill_rel env.cfg b1 b2 h
+        generalize fill env.cfg b1 = f1 at hf ⊢
+        generalize fill env.cfg b2 = f2 at hf ⊢
+        cases f1 with
+        | error e1 => cases f2 <;> simp [FillRel] at hf; exact hf
+        | ok x1 =>
+          cases f2 with
+          | error e2 => obtain ⟨y1, d1⟩ := x1; simp [FillRel] at hf
+          | ok x2 =>
+            obtain ⟨y1, d1⟩ := x1
+            obtain ⟨y2, d2⟩ := x2
+            simp only [FillRel] at hf
+            obtain ⟨hy, hd⟩ := hf
+            subst hy
+            cases y1 with
+            | false => exact ⟨rfl, hd⟩
+            | true =>
+              simp only [fuelFor]
+              have : d1.lex.rest.length = d2.lex.rest.length := by rw [hd.2.2]
+              rw [this]
+              exact getDoxygenLoop_rel _ _ _ _ _ _ _ .nil hd
+      · simp only [fuelFor]
+        have : b1.lex.rest.length = b2.lex.rest.length := by rw [h.2.2]
+        rw [this]
+        exact getDoxygenLoop_rel _ _ _ _ _ _ _ .nil h
+  doxAfter := by
+    intro b1 b2 h
+    unfold getDoxygenAfter
+    rw [← h.1, ← h.2.1.isEmpty]
+    split
+    · exact ⟨rfl, h⟩
+    · split
+      · exact ⟨rfl, h⟩
+      · obtain ⟨hc, hn, hr⟩ := doxAfterScan_rel (c1 := []) (c2 := []) (n1 := []) (n2 := []) h.2.1 .nil .nil
+        simp only
+        exact ⟨doxResult_eq env.mcRe hc, rfl, TokEqL.append hn hr, h.2.2⟩
+  bounded := by
+    intro ts1 ts2 h
+    exact ⟨rfl, h, rfl⟩
+  hasTokens := by
+    intro b1 b2 h _
+    exact h.2.1.isEmpty
+
 end Cxx
